@@ -326,4 +326,40 @@ theorem acc_run (s : Sys) (H : List Nat) (steps : List Step) (h : Acc s H) :
       obtain ⟨H', ha, h1, h2⟩ := ih (finish s i d now).1 H (acc_finish s H i d now h)
       exact ⟨H', ha, h1, fun e he => h2 e (by simpa [handed] using he)⟩
 
+/-! ### the breaker inside the sink -/
+
+theorem stepS_breaker (s : Sys) (st : Step) :
+    ∃ ops, (stepS s st).breaker = finalB s.cfg s.breaker ops ∧ (stepS s st).cfg = s.cfg := by
+  cases st with
+  | start i evs now =>
+    refine ⟨[.allow now], ?_, ?_⟩
+    · simp only [stepS, start, finalB, List.foldl, stepB]
+      split <;> rfl
+    · simp only [stepS, start]; split <;> rfl
+  | finish i d now =>
+    simp only [stepS, finish]
+    cases s.inflight.lookup i with
+    | none => exact ⟨[], rfl, rfl⟩
+    | some evs =>
+      cases d with
+      | ok => exact ⟨[.success], rfl, rfl⟩
+      | fail msg k => exact ⟨[.failure now], rfl, rfl⟩
+
+theorem finalB_append' (c : Cfg) (b : Breaker) (o1 o2 : List Op) :
+    finalB c b (o1 ++ o2) = finalB c (finalB c b o1) o2 := by
+  simp [finalB, List.foldl_append]
+
+/-- the breaker inside the resilient sink is driven by nothing but `allow_request` / `record_*` calls -/
+theorem runS_breaker (steps : List Step) (s : Sys) :
+    ∃ ops, (runS s steps).breaker = finalB s.cfg s.breaker ops ∧ (runS s steps).cfg = s.cfg := by
+  induction steps generalizing s with
+  | nil => exact ⟨[], rfl, rfl⟩
+  | cons st rest ih =>
+    obtain ⟨o1, h1, c1⟩ := stepS_breaker s st
+    obtain ⟨o2, h2, c2⟩ := ih (stepS s st)
+    refine ⟨o1 ++ o2, ?_, ?_⟩
+    · show (runS (stepS s st) rest).breaker = _
+      rw [h2, c1, h1, finalB_append']
+    · show (runS (stepS s st) rest).cfg = _
+      rw [c2, c1]
 end Varpulis.Breaker
